@@ -69,14 +69,44 @@ def reset_completeness(ctx, rule, classes, extra_writers=('end_observations',)):
 
 
 # --------------------------------------------------------------------------- rejected input changes nothing (R9.2 / R10.2)
+def _N_axioms():
+    from .numrules import STAT_AXIOMS
+    return STAT_AXIOMS
+
+
 def rejected_input(ctx, rule, classes, methods=('register', 'notify')):
     ctx.rule(rule, 'rejected input changes nothing: no accumulator write and no notification on any path to a raise in register/notify')
     n = 0
     from .effects import RBE
     rbe = RBE(ctx.prog)
+    reach_cache = {}
+
+    def callee_raise_unreachable(cls, m, v):
+        """a refusal inside a *called* method (reached with the caller's arguments) that the numeric abstract interpretation (E7, type-exact
+        mode: isinstance tests are decided only for values known to be float / int) never reaches from this entry point with these
+        arguments cannot happen after the caller's effect either"""
+        if len(v.site.chain) < 2:
+            return False
+        key = (cls, m)
+        if key not in reach_cache:
+            try:
+                from . import numeric as _N
+                nprog = _N.Program(ctx.prog, {'statistics', 'utils'})
+                an = _N.Analyser(nprog, axioms=_N_axioms(), max_depth=9, param_finite=False)       # deep enough for the constructor chains of the simulation statistics
+                an.strict_types = True
+                an.analyse_entry(cls, m)
+                reach_cache[key] = an.reached_raises
+            except Exception as e:                      # the interpreter does not cover the construct: nothing is discharged
+                reach_cache[key] = None
+                ctx.note(f'{rule}: reachability of callee refusals from {cls}.{m} not decided ({type(e).__name__}: {e})')
+        reached = reach_cache[key]
+        if reached is None:
+            return False
+        wc, _, wf = v.site.where.partition('.')
+        return not any(r[0] == wc and r[1] == wf.split(':')[0] and r[2] == v.site.lineno for r in reached)
     for c in classes:
         ms = [m for m in methods if ctx.prog.resolve(c, m)[1] is not None]
-        rbe_check(ctx, rule, c, ms, 'rejected observation has already changed the statistic', rbe=rbe)
+        rbe_check(ctx, rule, c, ms, 'rejected observation has already changed the statistic', rbe=rbe, discharge=callee_raise_unreachable)
         n += len(ms)
     ctx.floor(rule, 'register/notify entry points', n, len(classes))
 
